@@ -374,6 +374,24 @@ impl<W: Write> Tracer<W> {
     }
 }
 
+/// a case in the replay format: "cols rows limit" then one op per line
+pub fn write_case<W: Write>(w: &mut W, case: &Case) {
+    writeln!(w, "{} {} {}", case.cols, case.rows, case.limit.map_or(-1, |l| l as i64)).unwrap();
+    for op in &case.ops {
+        match op {
+            Op::Str(s) => {
+                let mut l = format!("S {}", s.chars().count());
+                for c in s.chars() {
+                    write!(l, " {}", c as u32).unwrap();
+                }
+                writeln!(w, "{}", l).unwrap();
+            }
+            Op::Flush => writeln!(w, "L").unwrap(),
+            Op::Resize(c, r) => writeln!(w, "R {} {}", c, r).unwrap(),
+        }
+    }
+}
+
 fn arg<'a>(args: &'a [String], name: &str) -> Option<&'a str> {
     args.iter().position(|a| a == name).and_then(|i| args.get(i + 1)).map(|s| s.as_str())
 }
@@ -437,6 +455,107 @@ fn main() {
             let mut tr = Tracer { w: out, steps: 0, panics: 0, truncated: 0, max_lines: 150 };
             tr.run_case(0, &case, true);
             tr.w.flush().unwrap();
+        }
+
+        "sweep" => {
+            // exhaustive parser sweep: 14 states x every Unicode scalar value x backgrounds.
+            // For each (background, state): feed CAN + intro, then one character c; record
+            // (next state, emitted function) run-length encoded over c.
+            let intros: [&[&str]; 14] = [
+                &["", "\x1b[3;4m"],
+                &["\x1b"],
+                &["\x1b(", "\x1b#"],
+                &["\x1b["],
+                &["\x1b[5", "\x1b[?12;34", "\x1b[1:2:3;4", "\x1b[;"],
+                &["\x1b[!", "\x1b[5$"],
+                &["\x1b[:"],
+                &["\x1bP"],
+                &["\x1bP1", "\x1bP?1;2"],
+                &["\x1bP$"],
+                &["\x1bPq", "\x1bP1$q"],
+                &["\x1bP:"],
+                &["\x1b]"],
+                &["\x1bX"],
+            ];
+            let stale = ["", "\x1b[9;8;7;6H"];
+            let mut w = out;
+            let mut total: u64 = 0;
+            let results: Vec<String> = std::thread::scope(|sc| {
+                let mut hs = Vec::new();
+                for s in 0..14usize {
+                    let intros = &intros;
+                    let stale = &stale;
+                    hs.push(sc.spawn(move || {
+                        let mut o = String::new();
+                        let mut n: u64 = 0;
+                        for st in stale.iter() {
+                            for intro in intros[s].iter() {
+                                let full: String = format!("\x18{}\x18{}", st, intro);
+                                let mut p = Parser::new();
+                                write!(o, "SW {} {}", s, full.chars().count()).unwrap();
+                                for ch in full.chars() {
+                                    write!(o, " {}", ch as u32).unwrap();
+                                }
+                                o.push('\n');
+                                let mut run: Option<(u32, u32, String)> = None;
+                                for cp in 0u32..=0x10FFFF {
+                                    let c = match char::from_u32(cp) {
+                                        Some(c) => c,
+                                        None => continue,
+                                    };
+                                    for ch in full.chars() {
+                                        p.feed(ch);
+                                    }
+                                    assert_eq!(p.state as u8 as usize, s, "intro does not reach state");
+                                    let f = p.feed(c);
+                                    n += 1;
+                                    let sig = match &f {
+                                        Some(Function::Print(x)) if *x == c => format!("{} Print self", p.state as u8),
+                                        Some(f) => format!("{} {}", p.state as u8, fmt_function(f)),
+                                        None => format!("{} -", p.state as u8),
+                                    };
+                                    match &mut run {
+                                        Some((_, hi, s0)) if *s0 == sig => *hi = cp,
+                                        _ => {
+                                            if let Some((lo, hi, s0)) = run.take() {
+                                                writeln!(o, "RUN {} {} {}", lo, hi, s0).unwrap();
+                                            }
+                                            run = Some((cp, cp, sig));
+                                        }
+                                    }
+                                }
+                                if let Some((lo, hi, s0)) = run.take() {
+                                    writeln!(o, "RUN {} {} {}", lo, hi, s0).unwrap();
+                                }
+                            }
+                        }
+                        (o, n)
+                    }));
+                }
+                hs.into_iter()
+                    .map(|h| {
+                        let (o, n) = h.join().unwrap();
+                        total += n;
+                        o
+                    })
+                    .collect()
+            });
+            for r in results {
+                w.write_all(r.as_bytes()).unwrap();
+            }
+            w.flush().unwrap();
+            eprintln!("harness: sweep feeds={}", total);
+        }
+        "case" => {
+            // print case <index> of (seed, profile) in the replay format
+            let seed: u64 = arg(&args, "--seed").map_or(1, |s| s.parse().unwrap());
+            let i: usize = arg(&args, "--index").map_or(0, |s| s.parse().unwrap());
+            let prof = profile(arg(&args, "--profile").unwrap_or("general"));
+            let mut rng = Rng::new(seed.wrapping_mul(1_000_003).wrapping_add(i as u64));
+            let case = gen_case(&mut rng, &prof);
+            let mut w = out;
+            write_case(&mut w, &case);
+            w.flush().unwrap();
         }
         _ => {
             eprintln!("usage: avt-harness trace --seed S --cases N --profile P [--queries] [--out FILE]");
